@@ -119,6 +119,17 @@ CHECKS: dict[str, tuple[str, str, str, str, str]] = {
             "chunks, and exact reply frames at the device for voice-assistant sequences; unsubscribe at every position of a stream.",
             "runtime monitoring: callback trace vs one-callback-per-message / camera reassembly models, exhaustive small interleavings",
             "DESIGN.md §4 C17"),
+    "C18": ("S", "exploration",
+            "The real ReconnectLogic drives the real APIClient against the simulated device/network/mDNS over histories of start/stop/"
+            "stop_callback, ten attempt outcomes (incl. auth/encryption-class errors and a synchronous connect failure), session endings "
+            "(expected/unexpected, peer or user), matching / non-matching mDNS batches and waits (incl. exactly the armed retry timer -1 ms/+0/+1 ms): "
+            "all histories up to 3/4 symbols of a 10-symbol alphabet, backoff ladders per failure kind, seeded random up to 25 steps, 12 client "
+            "variants. An offline trace checker over the class-boundary log of every start_connection/finish_connection, the user callbacks, the "
+            "harness calls, mDNS deliveries and fake-zeroconf listener/close logs judges: no overlapping attempts or connection objects, every "
+            "attempt instant justified, exact due instant after each trigger (bounded progress in virtual time), callback alternation and counts, "
+            "and silence / no listener / zeroconf closed after stop().",
+            "runtime monitoring: offline trace checker (justified attempt instants, bounded progress, alternation, stop) over recorded manager histories",
+            "DESIGN.md §4 C18"),
     "C19": ("S", "exploration",
             "Multi-session histories on one APIClient (all histories up to length 3/4 over a 12-symbol alphabet + seeded random up to 30 steps: "
             "start/finish/connect awaited or left pending against seven device/network behaviours, disconnect, force, cancel, device EOF/RST/"
